@@ -1,0 +1,47 @@
+//go:build verif
+
+package updog
+
+// Contracts for the deductive verifier in /verif (govc). This file contains comments only: it is compiled
+// only with the build tag "verif" and adds no executable code. Syntax: see /verif/DESIGN.md §2.2.
+
+// ---------------------------------------------------------------------------------------------------------------
+// cache.go — C07 (LRU cache), C03 (Cache interface), C04 (lock discipline)
+
+//@ ghost field CounterMetric.count int
+//@ interface CounterMetric.Inc(m)
+//@   modifies m.count
+//@   ensures m.count == old(m.count) + 1
+
+//@ pure item(e *list.Element) *lruCacheItem := e.Value.(*lruCacheItem)
+//@ pure costmap() refint reads list.Element.Value, lruCacheItem.size, global.lruCacheItemSize, global.listElementSize
+//@ axiom costmap_def: forall e *list.Element :: costmap()[e] == item(e).size + lruCacheItemSize + listElementSize
+
+//@ pred CountersOK(m *CacheMetrics) := m != nil
+//@   && (m.GetCall != nil && m.PutCall != nil ==> iref(m.GetCall) != iref(m.PutCall))
+//@   && (m.GetCall != nil && m.CacheHit != nil ==> iref(m.GetCall) != iref(m.CacheHit))
+//@   && (m.GetCall != nil && m.CacheMiss != nil ==> iref(m.GetCall) != iref(m.CacheMiss))
+//@   && (m.PutCall != nil && m.CacheHit != nil ==> iref(m.PutCall) != iref(m.CacheHit))
+//@   && (m.PutCall != nil && m.CacheMiss != nil ==> iref(m.PutCall) != iref(m.CacheMiss))
+//@   && (m.CacheHit != nil && m.CacheMiss != nil ==> iref(m.CacheHit) != iref(m.CacheMiss))
+
+//@ pred LRUInv(c *LRUCache) := c != nil && c.entries != nil && c.lruList != nil && ListInv(c.lruList) && CountersOK(c.metrics)
+//@   && (forall k uint64 :: (k in c.entries) ==> (c.entries[k] in c.lruList.members) && item(c.entries[k]).key == k)
+//@   && (forall e *list.Element :: (e in c.lruList.members) ==> typeof(e.Value) == ptrtag(lruCacheItem) && item(e) != nil
+//@          && (item(e).key in c.entries) && c.entries[item(e).key] == e)
+//@   && (forall e *list.Element :: (e in c.lruList.members) ==> item(e).bm != nil && item(e).size == sizeBytes(item(e).bm.view))
+//@   && c.curSize == sum(c.lruList.members, costmap())
+
+//@ func [C07] (*LRUCache).Get(c, key) (bm, found)
+//@   requires LRUInv(c)
+//@   modifies c.lruList.stamp; c.lruList.clock; c.metrics.GetCall.count; c.metrics.CacheHit.count; c.metrics.CacheMiss.count
+//@   ensures [C07] inv: LRUInv(c)
+//@   ensures [C07] hit_iff_stored: found <==> (key in old(c.entries))
+//@   ensures [C07] hit_value: found ==> bm == old(item(c.entries[key]).bm)
+//@   ensures [C07] miss_nil: !found ==> bm == nil && c.lruList.stamp == old(c.lruList.stamp)
+//@   ensures [C07] hit_is_use: found ==> (forall k2 uint64 :: (k2 in c.entries) && k2 != key ==>
+//@              c.lruList.stamp[c.entries[k2]] == old(c.lruList.stamp[c.entries[k2]]) && c.lruList.stamp[c.entries[k2]] < c.lruList.stamp[c.entries[key]])
+//@   ensures [C07] count_get: c.metrics.GetCall != nil ==> c.metrics.GetCall.count == old(c.metrics.GetCall.count) + 1
+//@   ensures [C07] count_hit: c.metrics.CacheHit != nil ==> c.metrics.CacheHit.count == old(c.metrics.CacheHit.count) + (found ? 1 : 0)
+//@   ensures [C07] count_miss: c.metrics.CacheMiss != nil ==> c.metrics.CacheMiss.count == old(c.metrics.CacheMiss.count) + (found ? 0 : 1)
+//@   ensures [C07] count_put: c.metrics.PutCall != nil ==> c.metrics.PutCall.count == old(c.metrics.PutCall.count)
